@@ -85,13 +85,14 @@ func init() {
 			return o
 		},
 		Extra: func(e *Engine, tier string) []*FuncResult {
-			return []*FuncResult{e.typeGraphResult(), e.decoderSitesResult(map[string]bool{
-				"yaml.(*CompilerLoader).Load": true, "yaml.(*VeneersLoader).load": true, "codegen.PipelineFromFile": true})}
+			loaders := map[string]bool{"yaml.(*CompilerLoader).Load": true, "yaml.(*VeneersLoader).load": true, "codegen.PipelineFromFile": true}
+			return []*FuncResult{e.typeGraphResult(), e.decoderSitesResult(loaders), e.strictErrorsPropagateResult(loaders)}
 		},
 		Assumptions: []string{
 			"yaml.v3 semantics are assumed: NewDecoder is not strict, KnownFields(true) makes Decode reject any mapping key that matches no field of the target struct at any depth (for struct targets without custom unmarshalers); JSON Schema additionalProperties:false rejects undeclared keys",
 			"positions typed any / map[string]any / map[string]string are open by design (listed in trusted_base)",
 			"the safety obligations of the loaders (nil dereferences etc.) belong to C04, not to this property",
+			"a rejected document stays rejected: structural obligations over go/ssa that every function of internal/yaml and internal/codegen from which a strict loader is reachable propagates the error of every such call (returned, or the non-nil branch leads only to returns of a non-nil error and never back to the call)",
 		},
 	}
 	propSpecs["C16"] = &PropSpec{
@@ -260,7 +261,7 @@ func init() {
 				}
 			}
 			// a locked site that no longer exists as a map range is fine (it cannot be order dependent any more)
-			out = append(out, e.nondetScanResult(), e.newSitesResult(), e.helperCallersResult(), e.keyedSitesResult())
+			out = append(out, e.nondetScanResult(), e.newSitesResult(), e.helperCallersResult(), e.keyedSitesResult(), e.sortedFieldSitesResult())
 			return out
 		},
 		Assumptions: []string{
